@@ -25,8 +25,16 @@ PROPS["C03"] = dict(engine="E4", level="exploration",
    level_text="Seeded exploration of (server history x fault sequence x schedule perturbation) with exact oracles at virtual-time quiescence: cache == accepted(server) after one relist past quiescence, cache == accepted(list k) while the watch is dead, subscriber mirror == cache, watch restarted at each list's version and never from the future.",
    design_ref="DESIGN.md 5.3", technique="runtime monitoring: convergence / mirror / restart-version oracles over a fault-injecting fake API server in virtual time, race detector on")
 
+PROPS["C04"] = dict(engine="E5", level="fault_enumeration",
+   rule="refresh period 10000h so only the watch can deliver; one case = (history of 12 seeded mutations, fault position 0..12, fault kind in {close, Watch() errors x1..3, status, status+close, bookmark, unknown-type frame, nil-object frame, close right after a burst of 1/10/60, close twice, slow reconnect, duplicate+close}, slow actor in {none, controller at 'update event', watcher at 'session event', watcher at 'session done', watch session}); quick enumerates every position x kind for one history; distinct = distinct case descriptor; non-trivial = the case reached the continuity check (cache vs server after the reconnect delay).",
+   assumptions=["fake API server: a reconnect at version v is served every logged event with rv > v", "the reconnect delay is the library's 1s constant; verdict taken after (errors+5)s of virtual time, far below the refresh period"],
+   floors={"any": {"continuity-checks": 300, "reconnects": 200, "reconnect-version-checks": 200}},
+   level_text="Fault enumeration: every position of the history x every watch-fault kind x slow-actor choice, each run against the real controller in virtual time with relists disabled; exact oracles (cache == accepted server content within the reconnect delay, subscriber mirror == cache, reconnect version within [previous version, last delivered version]).",
+   design_ref="DESIGN.md 5.4", technique="runtime monitoring with fault injection: enumerated watch faults at every history position, continuity and resume-version oracles in virtual time, race detector on")
+
 ENGINES = {
  "E1": dict(path="harness/engines/e01_cache_test.go", kind="direct drive of the cache actor vs reference model R-cache; exhaustive small universe + random walks"),
  "E4": dict(path="harness/engines/e04_converge_test.go", kind="real controller over fault-injecting fake API server; convergence oracles at virtual-time quiescence"),
+ "E5": dict(path="harness/engines/e05_watch_test.go", kind="real controller, relists disabled, enumerated watch faults at every position"),
 }
 NA = {}
